@@ -778,3 +778,206 @@ Proof.
   splits; [reflexivity|left; reflexivity|reflexivity|].
   vm_compute. intros [H|[]]. discriminate.
 Qed.
+
+(* ------------- an axis named by an identity of the 1-d coordinates that span it *)
+Definition coord_types : list string := ["dimension_coordinate"; "auxiliary_coordinate"].
+
+(* a dimension or auxiliary coordinate of the unfiltered collection with exactly one axis *)
+Definition coord1 (E : env) (k : construct) : Prop :=
+  In k (e_root E) /\ mem (c_type k) coord_types = true /\ exists a, c_axes k = Some [a].
+
+(* the value is not itself the key of a domain axis, and is a string or a pattern *)
+Definition names_no_axis_key (E : env) (v : val) : Prop :=
+  match v with
+  | VStr s => ~ In s (keys_of (by_type ["domain_axis"] (e_root E)))
+  | VRe _ _ _ => True
+  | _ => False
+  end.
+
+Definition coords_named (E : env) (v : val) : list construct :=
+  by_identity_gen identities_short [v] (by_naxes [VInt 1] (by_type coord_types (e_root E))).
+
+Lemma one_axis_iff (c : construct) :
+  match c_axes c with Some x => some_int [VInt 1] (Z.of_nat (length x)) | None => false end = true
+  <-> exists a, c_axes c = Some [a].
+Proof.
+  destruct (c_axes c) as [x|]; [|split; [discriminate|intros [a H]; discriminate]].
+  unfold some_int. cbn [existsb match_int]. rewrite orb_false_r. split.
+  - intro H. apply Z.eqb_eq in H. destruct x as [|a [|b r]]; cbn [length] in H; try lia.
+    exists a. reflexivity.
+  - intros [a H]. inversion H. reflexivity.
+Qed.
+
+Lemma coords_named_In K E v k :
+  wf K (e_root E) ->
+  (In k (coords_named E v) <-> coord1 E k /\ sel_identity [v] k = true).
+Proof.
+  intro W. unfold coords_named.
+  assert (W2 : wf K (by_naxes [VInt 1] (by_type coord_types (e_root E)))).
+  { apply (wf_sub K (e_root E)); [exact W|]. intros c Hc.
+    apply by_naxes_In in Hc as [Hc _]. apply by_type_In in Hc as [Hc _]. exact Hc. }
+  change (by_identity_gen identities_short) with by_identity.
+  rewrite (by_identity_In K [v] _ k W2). rewrite by_naxes_In, by_type_In. cbn [selects unless_empty].
+  unfold coord1. rewrite one_axis_iff. tauto.
+Qed.
+
+Definition first_axes (c : list construct) : list string :=
+  flat_map (fun k => match c_axes k with Some (a :: _) => [a] | _ => [] end) c.
+
+Lemma first_axes_same c a :
+  c <> [] -> (forall k, In k c -> c_axes k = Some [a]) ->
+  exists r, first_axes c = a :: r /\ all_same a r = true.
+Proof.
+  induction c as [|k c IH]; [congruence|]. intros _ H.
+  unfold first_axes. cbn [flat_map]. rewrite (H k (or_introl eq_refl)). cbn [app].
+  destruct c as [|k2 c2].
+  - exists []. split; reflexivity.
+  - destruct IH as [r [R S]]; [discriminate|intros x Hx; apply H; right; exact Hx|].
+    exists (a :: r). split.
+    + fold (first_axes (k2 :: c2)). rewrite R. reflexivity.
+    + cbn [all_same]. rewrite String.eqb_refl. exact S.
+Qed.
+
+Lemma all_same_In h r x : all_same h r = true -> In x r -> x = h.
+Proof.
+  induction r as [|y r IH]; [contradiction|]. cbn [all_same]. intros H [->|Hx].
+  - apply andb_true_iff in H as [H _]. apply String.eqb_eq in H. symmetry. exact H.
+  - apply andb_true_iff in H as [_ H]. apply IH; assumption.
+Qed.
+
+(* the part of convert1 shared by strings (that are no axis key) and patterns *)
+Definition conv_by_coords (E : env) (chk : bool) (v : val) : list string :=
+  match coords_named E v with
+  | _ :: _ =>
+      match first_axes (coords_named E v) with
+      | a :: r => if all_same a r then [a] else []
+      | [] => []
+      end
+  | [] =>
+      if chk then
+        match by_identity_gen identities_short [v] (by_type ["domain_axis"] (e_root E)) with
+        | [d] => [c_key d]
+        | _ => []
+        end
+      else []
+  end.
+
+Lemma convert1_by_coords E chk v :
+  names_no_axis_key E v -> convert1 identities_short true E chk v = conv_by_coords E chk v.
+Proof.
+  unfold names_no_axis_key, convert1, conv_by_coords, coords_named, first_axes, coord_types.
+  destruct v as [s|a e l|z|]; try contradiction.
+  - intro N. apply mem_false in N. rewrite N.
+    destruct (by_identity_gen identities_short [VStr s] _); reflexivity.
+  - intros _. destruct (by_identity_gen identities_short [VRe a e l] _); reflexivity.
+Qed.
+
+Lemma axis_named_by_coordinate_identity K E chk v a :
+  wf K (e_root E) -> names_no_axis_key E v ->
+  (exists k, coord1 E k /\ sel_identity [v] k = true) ->
+  (forall k, coord1 E k -> sel_identity [v] k = true -> c_axes k = Some [a]) ->
+  convert1 identities_short true E chk v = [a].
+Proof.
+  intros W N [k0 [C0 S0]] A. rewrite (convert1_by_coords E chk v N). unfold conv_by_coords.
+  assert (I0 : In k0 (coords_named E v)) by (apply (coords_named_In K E v k0 W); split; assumption).
+  destruct (first_axes_same (coords_named E v) a) as [r [R S]].
+  - intro X. rewrite X in I0. contradiction.
+  - intros k Hk. apply (coords_named_In K E v k W) in Hk as [C S]. apply A; assumption.
+  - destruct (coords_named E v) as [|x l] eqn:Q; [contradiction|]. rewrite R, S. reflexivity.
+Qed.
+
+Lemma identity_on_two_axes_names_no_axis K E chk v k1 k2 a1 a2 :
+  wf K (e_root E) -> names_no_axis_key E v ->
+  coord1 E k1 -> coord1 E k2 -> sel_identity [v] k1 = true -> sel_identity [v] k2 = true ->
+  c_axes k1 = Some [a1] -> c_axes k2 = Some [a2] -> a1 <> a2 ->
+  convert1 identities_short true E chk v = [].
+Proof.
+  intros W N C1 C2 S1 S2 A1 A2 D. rewrite (convert1_by_coords E chk v N). unfold conv_by_coords.
+  assert (I1 : In k1 (coords_named E v)) by (apply (coords_named_In K E v k1 W); split; assumption).
+  assert (I2 : In k2 (coords_named E v)) by (apply (coords_named_In K E v k2 W); split; assumption).
+  assert (F1 : In a1 (first_axes (coords_named E v))).
+  { unfold first_axes. apply in_flat_map. exists k1. split; [exact I1|rewrite A1; left; reflexivity]. }
+  assert (F2 : In a2 (first_axes (coords_named E v))).
+  { unfold first_axes. apply in_flat_map. exists k2. split; [exact I2|rewrite A2; left; reflexivity]. }
+  destruct (coords_named E v) as [|x l] eqn:Q; [contradiction|].
+  destruct (first_axes (x :: l)) as [|h r]; [reflexivity|].
+  destruct (all_same h r) eqn:S; [|reflexivity]. exfalso. apply D.
+  assert (forall y, In y (h :: r) -> y = h) as Hh.
+  { intros y [<-|Hy]; [reflexivity|apply (all_same_In h r y S Hy)]. }
+  rewrite (Hh a1 F1), (Hh a2 F2). reflexivity.
+Qed.
+
+(* naming the axis by such an identity selects what naming it by key selects,
+   in every axis_mode and on every collection *)
+Lemma axis_by_identity_equals_axis_by_key K E v a m arg :
+  wf K (e_root E) -> names_no_axis_key E v ->
+  (exists k, coord1 E k /\ sel_identity [v] k = true) ->
+  (forall k, coord1 E k -> sel_identity [v] k = true -> c_axes k = Some [a]) ->
+  In a (keys_of (by_type ["domain_axis"] (e_root E))) ->
+  by_axis_gen identities_short true E m [v] arg = by_axis_gen identities_short true E m [VStr a] arg.
+Proof.
+  intros W N X A D. unfold by_axis_gen, convert. cbn [flat_map].
+  rewrite (axis_named_by_coordinate_identity K E true v a W N X A).
+  replace (convert1 identities_short true E true (VStr a)) with [a]; [reflexivity|].
+  unfold convert1. apply mem_In in D. rewrite D. reflexivity.
+Qed.
+
+(* non-vacuity: a dimension and an auxiliary coordinate of one axis share a standard_name *)
+Definition sh_cs : list construct :=
+  [ mkC "auxiliarycoordinate0" "auxiliary_coordinate" (Some ["domainaxis0"]) None None None
+        (mkP [("standard_name", "latitude")] None) None [] [];
+    mkC "auxiliarycoordinate1" "auxiliary_coordinate" (Some ["domainaxis1"; "domainaxis0"]) None None None
+        (mkP [("standard_name", "longitude")] None) None [] [];
+    mkC "dimensioncoordinate0" "dimension_coordinate" (Some ["domainaxis0"]) None None None
+        (mkP [("standard_name", "latitude")] None) None [] [];
+    mkC "domainaxis0" "domain_axis" None (Some 3%Z) None None noP None [] [];
+    mkC "domainaxis1" "domain_axis" None (Some 2%Z) None None noP None [] [] ].
+Definition sh_E : env := mkE sh_cs sh_cs ["domainaxis1"; "domainaxis0"].
+
+Lemma sh_example :
+  wf (keys_of sh_cs) sh_cs /\
+  convert1 identities_short true sh_E true (VStr "latitude") = ["domainaxis0"] /\
+  exists r, by_axis_gen identities_short true sh_E AAnd [VStr "latitude"] sh_cs = Ok r /\
+            keys_of r = ["auxiliarycoordinate0"; "auxiliarycoordinate1"; "dimensioncoordinate0"].
+Proof.
+  split; [apply wfb_wf; vm_compute; reflexivity|]. split; [vm_compute; reflexivity|].
+  eexists. split; vm_compute; reflexivity.
+Qed.
+
+(* ------ domain_axes / cell_methods with further keyword filters (C18-fix3-1, -2) *)
+Lemma domain_axes_respects_filters K E fs ids r :
+  wf K (e_self E) -> domain_axes cur E fs ids = Ok r ->
+  forall c, In c r ->
+  In c (e_self E) /\ forallb (fun f => selects E AAnd ["and"] f c) (FType ["domain_axis"] :: fs) = true.
+Proof.
+  intros W H c Hc. unfold domain_axes in H.
+  destruct (run_chain cur E AAnd ["and"] (FType ["domain_axis"] :: fs) (e_self E)) as [das|e] eqn:C; [|discriminate].
+  apply (chain_intersection K E AAnd ["and"] _ _ _ W C c).
+  cbn [cur v_keep_filters] in H.
+  destruct ids as [|v0 r0]; [inversion H; subst; exact Hc|].
+  destruct (filter _ (v0 :: r0)) in H; inversion H; subst r; apply filter_In in Hc as [Hc _]; exact Hc.
+Qed.
+
+Lemma cell_methods_respects_filters K E fs ids r :
+  wf K (e_self E) -> cell_methods cur E fs ids = Ok r ->
+  forall c, In c r ->
+  In c (e_self E) /\ forallb (fun f => selects E AAnd ["and"] f c) (FType ["cell_method"] :: fs) = true.
+Proof.
+  intros W H c Hc. unfold cell_methods in H.
+  destruct (run_chain cur E AAnd ["and"] (FType ["cell_method"] :: fs) (e_self E)) as [cms|e] eqn:C; [|discriminate].
+  apply (chain_intersection K E AAnd ["and"] _ _ _ W C c).
+  cbn [cur v_keep_filters v_cm_guard] in H.
+  destruct ids as [|v0 r0]; [inversion H; subst; exact Hc|].
+  destruct (filter _ (v0 :: r0)) in H.
+  - inversion H; subst r; apply filter_In in Hc as [Hc _]; exact Hc.
+  - destruct (_ +++ _) in H; inversion H; subst r; [contradiction|].
+    apply filter_In in Hc as [Hc _]; exact Hc.
+Qed.
+
+Lemma old_fallback_forgets_filters :
+  exists r c, domain_axes old sh_E [FSize [VInt 99]] [VStr "latitude"] = Ok r /\ In c r /\
+              selects sh_E AAnd ["and"] (FSize [VInt 99]) c = false.
+Proof.
+  eexists. exists (nth 3 sh_cs (mkC "" "" None None None None noP None [] [])).
+  split; [vm_compute; reflexivity|]. split; [left; reflexivity|reflexivity].
+Qed.
